@@ -10,12 +10,12 @@ use tari_bulletproofs_plus::{
 use crate::{
     eng::{Engine, F, R},
     gen::{cfg_strategy, lattice, mask_of, triple_strategy, Cfg, CtxSpec, Triple, TripleSpec, BITS, CTX_LABELS},
-    mutate::{fresh_point, Applied, PointHow, PromHow, ProofMut, PubStatement, StMut, StPointHow},
+    mutate::{fresh_point, pick, Applied, CompEdit, CompHow, PointHow, PromHow, ProofMut, PubStatement, StMut, StPointHow},
     props::{
         c03::{build_member, pool_member_valid, Member, PoolMember},
         c05::frac_of,
     },
-    refimpl::Proof,
+    refimpl::{Grp, Proof},
     runner::{guarded, sub, CaseLog, PropertyDef, RunCtx, Sub, Tier, INCONCLUSIVE},
     tapx::{challenges, tapped},
 };
@@ -116,6 +116,23 @@ fn perturbations(cfg: &Cfg, rounds: usize, ctx: &CtxSpec, promises: &[Option<u64
         if p == 0 {
             eq.equal = true;
             v.push(eq);
+        }
+    }
+    // the compressed copies that are what the transcript actually absorbs, rewritten by hand (public fields): single bit flips,
+    // bit 255 included, and the encoding of another point. Generator copies only count for the first member of a batch (the
+    // verifier reads the shared generators from there); the oracle skips them at later positions.
+    for j in 0..cfg.m.min(4) {
+        let fj = frac_of(j, cfg.m);
+        for how in [CompHow::FlipBit(255), CompHow::FlipBit((rep >> (3 + j)) as u8), CompHow::Fresh(rep ^ (0x400 + j as u64))] {
+            v.push(st(format!("commitment[{}]:compressed-copy", j.min(3)), StMut::CompressedCopy(CompEdit::Commitment { j: fj, how })));
+        }
+    }
+    for how in [CompHow::FlipBit(255), CompHow::FlipBit((rep >> 11) as u8)] {
+        v.push(st("H:compressed-copy".into(), StMut::CompressedCopy(CompEdit::H(how))));
+    }
+    for k in 0..cfg.ext {
+        for how in [CompHow::FlipBit(255), CompHow::FlipBit((rep >> (13 + k)) as u8)] {
+            v.push(st(format!("G[{}]:compressed-copy", k), StMut::CompressedCopy(CompEdit::G { k: frac_of(k, cfg.ext), how })));
         }
     }
     // aggregation factor and extension degree
@@ -295,6 +312,9 @@ pub fn oracle<E: Engine>(_ctx: &RunCtx, spec: &FsSpec, log: &mut CaseLog) -> Res
     let mut done = 0u64;
     for p in &perts {
         let mut ps = ps0.clone();
+        if !pre.is_empty() && matches!(&p.smut, Some(StMut::CompressedCopy(CompEdit::H(_))) | Some(StMut::CompressedCopy(CompEdit::G { .. }))) {
+            continue;
+        }
         if let Some(m) = &p.smut {
             if matches!(ps.apply(m), Applied::Noop) {
                 continue;
@@ -485,6 +505,97 @@ fn fs_sub<E: Engine>(cases: (usize, usize)) -> Sub {
     )
 }
 
+// ---------------------------------------------------------------------------------------------------------------------
+// prover messages far down a LONG (refused) proof: the verifier draws one challenge per L/R pair before it looks at the number of
+// pairs, and each of them - and the final one - has to depend on every pair before it
+
+#[derive(Clone, Debug, Serialize, Deserialize)]
+pub struct LongProofSpec {
+    pub base: TripleSpec,
+    /// number of L/R pairs of the garbage proof
+    pub rounds: u8,
+    /// pair whose L or R is replaced
+    pub j: u16,
+    pub right: bool,
+    pub bulk: u64,
+}
+
+pub fn long_proof_oracle<E: Engine>(_ctx: &RunCtx, spec: &LongProofSpec, log: &mut CaseLog) -> Result<(), String> {
+    E::reset_case();
+    let t = Triple::<E>::build(&spec.base)?;
+    let rounds = spec.rounds as usize;
+    let bytes = crate::props::c16::garbage_bytes::<E>(spec.rounds, t.cfg.ext as u8, 0, spec.bulk);
+    let mut pf = Proof::parse_layout(&bytes).map_err(|e| format!("{:?}", e))?;
+    let j = pick(spec.j, rounds);
+    let base_proof = match guarded(|| RangeProof::<E::P>::from_bytes(&bytes))? {
+        Ok(p) => p,
+        Err(e) => return Err(format!("{} garbage proof does not decode: {:?}", INCONCLUSIVE, e)),
+    };
+    let other = fresh_point::<E::P>(spec.bulk ^ 0x10f).enc();
+    if spec.right {
+        pf.r[j] = other;
+    } else {
+        pf.l[j] = other;
+    }
+    let altered = match guarded(|| RangeProof::<E::P>::from_bytes(&pf.encode()))? {
+        Ok(p) => p,
+        Err(e) => return Err(format!("{} altered garbage proof does not decode: {:?}", INCONCLUSIVE, e)),
+    };
+    let ctx = &spec.base.ctx;
+    let base = verifier_challenges::<E>(&[], &t.st, &base_proof, ctx, 0)?;
+    let got = verifier_challenges::<E>(&[], &t.st, &altered, ctx, 0)?;
+    let first = 2 + j;
+    if base.len() <= first {
+        // the verifier refused before drawing the challenge that follows pair j: nothing to compare
+        log.label("long-proof:refused-before-the-pair");
+        return Ok(());
+    }
+    for i in 0..got.len().min(base.len()) {
+        let same = got[i] == base[i];
+        if i < first && !same {
+            return Err(format!("{} challenge {} changed although only a later message ({}[{}]) was altered", INCONCLUSIVE, i, if spec.right { "R" } else { "L" }, j));
+        }
+        if i >= first && same {
+            return Err(format!(
+                "verifier: challenge {} of {} is UNCHANGED after perturbing {}[{}] of a proof with {} L/R pairs (first challenge drawn after it: {})",
+                i,
+                base.len(),
+                if spec.right { "R" } else { "L" },
+                j,
+                rounds,
+                first
+            ));
+        }
+    }
+    log.label(format!("engine={}", E::NAME));
+    log.label(format!("long-proof:rounds={}", if rounds > 64 { ">64" } else { "<=64" }));
+    log.label(format!("long-proof:pair={}", if j >= 64 { ">=64" } else if j >= 32 { "32..63" } else { "<32" }));
+    log.label(format!("long-proof:challenges-drawn={}", base.len()));
+    log.nontrivial(&(rounds, j, spec.right, t.cfg.bits, t.cfg.m, t.cfg.ext));
+    log.sample(json!({"engine": E::NAME, "kind": "long refused proof", "pairs": rounds, "altered": format!("{}[{}]", if spec.right { "R" } else { "L" }, j), "challenges_drawn": base.len()}));
+    Ok(())
+}
+
+fn long_proof_sub<E: Engine>(cases: (usize, usize)) -> Sub {
+    sub(
+        &format!("{}/long-refused-proofs", E::NAME),
+        crate::runner::no_fixed,
+        cases,
+        |_: &RunCtx, _: Option<&()>| {
+            (
+                triple_strategy(cfg_strategy(64, 8)),
+                prop_oneof![1 => 10u8..=33, 1 => 60u8..=64, 3 => 65u8..=72],
+                // the last pairs are the interesting ones
+                prop_oneof![1 => any::<u16>(), 2 => 65000u16..=65535],
+                any::<bool>(),
+                any::<u64>(),
+            )
+                .prop_map(|(base, rounds, j, right, bulk)| LongProofSpec { base, rounds, j, right, bulk })
+        },
+        long_proof_oracle::<E>,
+    )
+}
+
 pub fn def() -> PropertyDef {
     PropertyDef {
         id: "C04",
@@ -504,6 +615,6 @@ pub fn def() -> PropertyDef {
             "perturbations the verifier refuses before drawing the affected challenge (inconsistent batch, out-of-range promise) are not compared".into(),
         ],
         exhaustive: false,
-        subs: vec![fs_sub::<F>((1500, 20_000)), fs_sub::<R>((200, 2500))],
+        subs: vec![fs_sub::<F>((1500, 20_000)), fs_sub::<R>((200, 2500)), long_proof_sub::<F>((1500, 15_000)), long_proof_sub::<R>((150, 1500))],
     }
 }
